@@ -219,7 +219,7 @@ def run(ctx):
     ok = len(look) == 1 and len(ctors) == 1 and strip_ids(list(look[0].args.values())[0]) == peer
     ctx.check(ok, 'Y4', 'an IKE_SA is looked up by the template destination (id.daddr, in the template\'s family)', key=('Y4', 'addresses'),
               site=site, detail={'lookup': [tq.text(v) for c in look for v in c.args.values()]})
-    ok = ok and look[0].seq < ctors[0].seq and any(a[0][0] == 'caught' and 'StopIteration' in tq.text(a[0]) and a[1] for a in ctors[0].pc) \
+    ok = ok and look[0].seq < ctors[0].seq and common.miss_path(ctors[0].pc) \
         and not any(a[0][0] == 'caught' for a in look[0].pc)
     ctx.check(ok, 'Y4', 'an IKE_SA with that peer is looked up first; a new one is created only when there is none', key=('Y4', 'reuse'), site=site)
     bp = ctx.func('ikesacontroller.IkeSaController._get_ike_sa_by_peer_addr')
@@ -245,7 +245,9 @@ def run(ctx):
                       'in the selector\'s family' % ('source' if name == 'tsi' else 'destination', addr, port), key=('Y4', 'small_' + name),
                       site=site, detail={'found': tq.text(d.args.get(name, NONE), 300)})
         recv = strip_ids(d.recv or NONE)
-        parts = {recv} if recv[0] != 'cond' else {recv[2], recv[3]}
+        def leaves(t):
+            return leaves(t[2]) | leaves(t[3]) if t[0] == 'cond' else {t}
+        parts = leaves(recv) - {NONE}       # (a None left by the miss handler is replaced by the new IKE_SA before it gets here)
         okr = parts <= {strip_ids(look[0].term) if look else None, strip_ids(ctors[0].term) if ctors else None} and len(parts) == 2
         ctx.check(okr, 'Y4', 'the IKE_SA found or created is asked to negotiate with (source selector, destination selector, entry index)',
                   key=('Y4', 'hand-over'), site=ctx.site(pa, d.node), detail={'receiver': tq.text(recv, 300)})
